@@ -332,6 +332,13 @@ func (p SimpleCommonMessageSignatureProof) MergeSparse(s SparseSignatureProof) S
 	bsBefore := p.bitset.Clone()
 
 	for _, sparseSig := range s.Signatures {
+		if len(sparseSig.KeyID) != 2 {
+			// Key IDs are big endian uint16 values, just like in HasSparseKeyID;
+			// anything else cannot identify one of our keys.
+			res.AllValidSignatures = false
+			continue
+		}
+
 		// Assuming the index can be represented in a 16 bit integer.
 		// This type is certainly not intended to support 32k public keys.
 		n := int(binary.BigEndian.Uint16(sparseSig.KeyID))
